@@ -103,7 +103,9 @@ impl JobManager {
             }
         }
 
-        let id = self.jobs.len() + 1;
+        // One more than the highest number in use: the table length would repeat the number
+        // of a live job once an earlier job has finished and been removed.
+        let id = self.jobs.iter().map(|j| j.id).max().unwrap_or(0) + 1;
         job.id = id;
         job.annotation = JobAnnotation::Current;
         self.jobs.push(job);
